@@ -119,12 +119,7 @@ def search(ctx, strength):
 
 def replay(ctx):
     regen(ctx)
-    res = ctx.run_impl("c06_impl.py", {"mode": "search", "strength": "thorough", "seed": ctx.replay.get("seed", 0),
-                                       "only": ctx.replay.get("input")}, timeout=3000)
-    if res is None:
-        return
-    for f in res.get("failures", []):
-        ctx.failure(f["signature"], f["what"], f["data"])
+    search(ctx, "thorough")
 
 
 META = {
